@@ -135,33 +135,62 @@ def run_sweep(case, r):
         L.residual[m] = P.u_init
         L.residual[m][:] = R[m]
         L.increment[m] = P.u_init
-    G = np.linalg.inv(Ginv)
-    lhs = np.kron(G, np.eye(n)) - dt * np.kron(Q, A)
-    cond = np.linalg.cond(lhs) * max(1.0, np.linalg.cond(Ginv))
-    try:
-        L.sweep.update_nodes()
-    except AssertionError as e:
-        # computeDiagonalization asserts its own eigen-decomposition: defective Q G^-1 (observed, not a property violation)
-        r.count('diagonalisation_refused')
-        r.check(True, 'noop', '')
-        return
-    if cond > 1e8 or np.linalg.cond(L.sweep.S) > 1e8:
-        r.count('ill_conditioned')
-        r.check(True, 'noop', '')
-        return
-    if case['ignore_ic']:
-        rhs = R.reshape(-1)
-        got = np.array([np.asarray(L.increment[m]) for m in range(M)])
-    else:
-        rhs = np.tile(u0, M)
-        got = np.array([np.asarray(L.u[m + 1]) for m in range(M)])
-    exp = np.linalg.solve(lhs, rhs).reshape(M, n)
-    e = float(np.max(np.abs(got - exp)))
-    sc = max(1.0, float(np.max(np.abs(exp))))
-    r.check(e <= 1e-11 * max(cond, np.linalg.cond(L.sweep.S)) * sc, 'diagonalisation-sweep-solves-collocation', f'{r.key}: sweeper result differs from the dense solve of (G x I - dt Q x A) U = rhs by {e:.3e} (cond {cond:.1e})')
-    r.nontrivial = True
+    # the sweeper is judged as configured at construction and again after every later set_G_inv() on the same object
+    # (ParaDiag re-configures one sweeper per block/rank): each configuration must solve ITS system
+    configs = [('constructed', Ginv)]
+    for k in range(case.get('reconf', 2)):
+        if rng.random() < 0.3:
+            G2 = np.eye(M, dtype=complex)
+        else:
+            l2 = int(rng.integers(0, case['L']))
+            a2 = case['alpha'] if rng.random() < 0.5 else float(10 ** rng.uniform(-8, 0))
+            G2 = np.asarray(H.get_G_inv_matrix(l2, case['L'], a2, dict(num_nodes=M, quad_type='RADAU-RIGHT')), dtype=complex)
+        configs.append((f'set_G_inv#{k + 1}', G2))
+    for ci, (cname, Gi) in enumerate(configs):
+        if ci > 0:
+            try:
+                L.sweep.set_G_inv(Gi)
+            except AssertionError:
+                r.count('diagonalisation_refused')
+                break
+            r.check(np.array_equal(np.asarray(L.sweep.params.G_inv), Gi), 'set-G-inv-stored', f'{r.key}: params.G_inv after set_G_inv is not the matrix passed in')
+            R = rng.standard_normal((M, n)) + 1j * rng.standard_normal((M, n))
+            for m in range(M):
+                L.residual[m][:] = R[m]
+        with np.errstate(all='ignore'):
+            try:
+                G = np.linalg.inv(Gi)
+            except np.linalg.LinAlgError:
+                r.count('ill_conditioned')
+                continue
+        lhs = np.kron(G, np.eye(n)) - dt * np.kron(Q, A)
+        cond = np.linalg.cond(lhs) * max(1.0, np.linalg.cond(Gi))
+        try:
+            L.sweep.update_nodes()
+        except AssertionError as e:
+            # computeDiagonalization asserts its own eigen-decomposition: defective Q G^-1 (observed, not a property violation)
+            r.count('diagonalisation_refused')
+            r.check(True, 'noop', '')
+            break
+        if not np.isfinite(cond) or cond > 1e8 or np.linalg.cond(L.sweep.S) > 1e8:
+            r.count('ill_conditioned')
+            r.check(True, 'noop', '')
+            continue
+        if case['ignore_ic']:
+            rhs = R.reshape(-1)
+            got = np.array([np.asarray(L.increment[m]) for m in range(M)])
+        else:
+            rhs = np.tile(u0, M)
+            got = np.array([np.asarray(L.u[m + 1]) for m in range(M)])
+        exp = np.linalg.solve(lhs, rhs).reshape(M, n)
+        e = float(np.max(np.abs(got - exp)))
+        sc = max(1.0, float(np.max(np.abs(exp))))
+        r.check(e <= 1e-11 * max(cond, np.linalg.cond(L.sweep.S)) * sc, 'diagonalisation-sweep-solves-collocation', f'{r.key} [{cname}]: sweeper result differs from the dense solve of (G x I - dt Q x A) U = rhs by {e:.3e} (cond {cond:.1e})')
+        r.nontrivial = True
+        if ci > 0:
+            r.count('reconfigured_sweeps')
+        r.sample = dict(case={k: v for k, v in case.items() if not k.startswith('_')}, err=e)
     r.observe('sweep', f"id{case['ident']}/ic{case['ignore_ic']}/imex{case['imex']}")
-    r.sample = dict(case={k: v for k, v in case.items() if not k.startswith('_')}, err=e)
 
 
 def run_run(case, r):
